@@ -40,6 +40,7 @@ class DecodeFault(Exception):
         super().__init__("%s at %s" % (",".join(kinds), where))
         self.kinds = list(kinds)
         self.where = where
+        self.in_array = False   # first fault found while decoding an array element
 
 
 STRUCTURAL = {"length", "trailing", "array-size", "trailing-in-array"}
@@ -678,7 +679,9 @@ class Model:
         if full and n != len(data):
             st.faults.append("trailing")
         if st.faults:
-            raise DecodeFault(st.faults, st.where)
+            e = DecodeFault(st.faults, st.where)
+            e.in_array = st.first_in_array
+            raise e
         return v, n
 
     def _decode(self, tid, data, st, depth):
@@ -892,6 +895,13 @@ class Model:
 
         def read_elem(buf):
             """-> (value, used)"""
+            st.array_depth += 1
+            try:
+                return read_elem_(buf)
+            finally:
+                st.array_depth -= 1
+
+        def read_elem_(buf):
             if kind == "scalar":
                 if len(buf) < ew:
                     st.fail("length", where)
@@ -1165,17 +1175,23 @@ class _DecState:
     def __init__(self):
         self.faults = []
         self.where = ""
+        self.array_depth = 0      # > 0 while an array element is being decoded
+        self.first_in_array = False
 
     def value_fault(self, kind, where):
         if not self.faults:
             self.where = where
+            self.first_in_array = self.array_depth > 0
         self.faults.append(kind)
 
     def fail(self, kind, where):
         if not self.faults:
             self.where = where
+            self.first_in_array = self.array_depth > 0
         self.faults.append(kind)
-        raise DecodeFault(self.faults, self.where)
+        e = DecodeFault(self.faults, self.where)
+        e.in_array = self.first_in_array
+        raise e
 
 
 def swap_endianness(data, segs):
